@@ -16,12 +16,14 @@ from vp import storemodel as SM
 
 # key classes
 P, A, L, N = "present", "absent", "stored_later", "none_valued"
+B, M = "bytearray_valued", "mutable_list"  # values whose stored form differs from the live object
 ALPHABET = (
     [("has", k) for k in (P, A, L, N)]
     + [("fetch", k) for k in (P, A, L, N)]
     + [("store", k) for k in (P, L, N)]
     + [("sync", None), ("fetch_paths", None), ("fetch_paths_absent", None)]
 )
+LIVE_OPS = [("store", B), ("fetch", B), ("has", B), ("store", M), ("fetch", M), ("has", M), ("fetch", P)]
 # path operations that move one path between two keys and back (A, B, A ...)
 PATH_OPS = [("sync_q_to", P), ("sync_q_to", N), ("sync_r_to", P), ("sync", None), ("fetch_paths", None)]
 EXTRA_KEYS = ["x%d" % i for i in range(12)]  # to fill / overflow the cache
@@ -29,7 +31,18 @@ CAPS = [1, 2, 3, 10, sys.maxsize // 2]
 
 
 def value_of(k):
+    if k == B:
+        return bytearray(b"value-of-bytearray")
+    if k == M:
+        return [1, 2, "value-of-mutable"]
     return None if k == N else SM.Obj("value-of-" + k)
+
+
+def _typed(ans):
+    """fetch answers are compared with their type (bytearray(b'x') == b'x' in Python)."""
+    if ans[0] == "ok":
+        return ("ok", type(ans[1]).__name__, ans[1])
+    return ans
 
 
 def _answer(fn):
@@ -57,7 +70,7 @@ def run_sequence(under, cap, seq, root, rep, check_bound):
     w = LRUCacheStore(s1, cap)
     refs = []
     out = []
-    fetched_absent = set()
+    ta = tb = v = v2 = None
     for step, (op, k) in enumerate(seq):
         key = SM.key_for(k) if k is not None else None
         if op == "has":
@@ -66,6 +79,7 @@ def run_sequence(under, cap, seq, root, rep, check_bound):
                 a, b = ("ok", bool(a[1])), ("ok", bool(b[1]))
         elif op == "fetch":
             a, b = _answer(lambda: w.fetch_blob(key)), _answer(lambda: s2.fetch_blob(key))
+            ta, tb = _typed(a), _typed(b)
             if a[0] == "ok" and a[1] is not None:
                 try:
                     refs.append(weakref.ref(a[1]))
@@ -73,7 +87,12 @@ def run_sequence(under, cap, seq, root, rep, check_bound):
                     pass
         elif op == "store":
             v = value_of(k)
-            a, b = _answer(lambda: w.store_blob(key, v, None)), _answer(lambda: s2.store_blob(key, v, None))
+            v2 = value_of(k)
+            a, b = _answer(lambda: w.store_blob(key, v, None)), _answer(lambda: s2.store_blob(key, v2, None))
+            if k == M:
+                # the producer goes on using (and changing) its object after it was stored
+                v.append("changed-after-store")
+                v2.append("changed-after-store")
         elif op in ("sync_q_to", "sync_r_to"):
             m = OrderedDict([("/p/q" if op == "sync_q_to" else "/r", SM.key_for(k))])
             a, b = _answer(lambda: w.sync_paths(m)), _answer(lambda: s2.sync_paths(m))
@@ -101,6 +120,8 @@ def run_sequence(under, cap, seq, root, rep, check_bound):
             a = b = ("ok", None)
             key = None
         rep.count("answers_compared")
+        if op == "fetch":
+            a, b = ta, tb
         if a != b:
             mech = None
             prior = seq[:step]
@@ -116,10 +137,10 @@ def run_sequence(under, cap, seq, root, rep, check_bound):
                     mech = "lru-caches-absent-fetch"
             out.append(("%s cap=%s after %r: wrapped answered %r, bare store %r" % (under, cap, seq[: step + 1], a, b), mech))
             break
-        a = b = None
+        a = b = ta = tb = v = v2 = None
     # boundedness
     if check_bound and under == "local":
-        a = b = None
+        a = b = ta = tb = v = v2 = None
         gc.collect()
         alive = len(set(id(r()) for r in refs if r() is not None))
         rep.count("bound_checks")
@@ -204,6 +225,9 @@ def run(tier, seed):
                 s.append(rng.choice(ALPHABET))
         rnd.append(s)
     # every sequence of path operations up to length 5 (paths moved between keys and back, queried in between)
+    liveseqs = []
+    for n in range(2, 4 if tier == "quick" else 5):
+        liveseqs += [list(t) for t in itertools.product(LIVE_OPS, repeat=n)]
     pathseqs = []
     for n in range(2, 5 if tier == "quick" else 7):
         pathseqs += [list(t) for t in itertools.product(PATH_OPS, repeat=n)]
@@ -218,6 +242,8 @@ def run(tier, seed):
                 allseq = [s for s in seqs if len(s) <= 3] + [s for i, s in enumerate(s2 for s2 in seqs if len(s2) == 4) if i % 6 == seed % 6] + rnd
             if tier != "quick" or cap in (1, CAPS[-1]):
                 allseq = allseq + pathseqs
+            if under == "local" and (tier != "quick" or cap in (1, 3, CAPS[-1])):
+                allseq = allseq + liveseqs
             chunk = 250
             for i in range(0, len(allseq), chunk):
                 jobs.append(("seq", (under, cap, allseq[i : i + chunk])))
